@@ -79,7 +79,7 @@ CLAIMED = {
              "ServerHello: C01_server_hello_parsed (random, suite, compression, extension dictionary and selected version are exactly what an RFC-encoded ServerHello carries, "
              "with any session id, any extensions or none, followed by anything in the record), C01_extension_walk, C01_tls13_keys_installed. "
              "C01_tls12_keys_installed_aead/_chacha/_rc4/_cbc_explicit/_cbc_chained (SSL 3.0 - TLS 1.2: generate_keys installs the decryptor the class's session theorem starts from). "
-             "C01_tls12_aead_connection (and _from_client_hello, and C01_tls12_chacha_connection, C01_rc4_connection, C01_cbc_explicit_connection, C01_cbc_chained_connection for the other classes) composes them: ServerHello record, both plaintext flights cut anywhere and interleaved anyhow, ChangeCipherSpec/Finished/application records in any interleaving => exactly the application contents. "
+             "C01_tls12_aead_connection (and _from_client_hello, and C01_tls12_chacha_connection, C01_rc4_connection, C01_cbc_explicit_connection, C01_cbc_chained_connection for the other classes, C01_tls13_connection_from_server_hello for TLS 1.3) composes them: ServerHello record, both plaintext flights cut anywhere and interleaved anyhow, ChangeCipherSpec/Finished/application records in any interleaving => exactly the application contents. "
              "Plaintext handshake grouped or fragmented into records at ANY bytes: C01_plain_handshake_record, C01_plain_handshake_flight, C01_plain_handshake_dispatch (the "
              "remembered (bytes to come, cut header bytes) is a function of the offset in the flight alone; a record is read as ClientHello/ServerHello iff it begins with one). "
              "Keys are C15's theorems, record delivery C05's, output concatenation C06's. NOT proved: the ClientHello side (a fixed slice) and key lookup end to end, TLS 1.3 server data before the client Finished and post-handshake messages: decided by the independent reference sender "
